@@ -834,6 +834,8 @@ class FnTranslator:
                 return self.wrap(pre, self.stmts(rest, tail, env2, fin))
             if e[0] in ("if", "iflet", "match") and self.has_jump(e):
                 raise RsError("return inside a let initialiser (line %d)" % line)
+            if ty is None and pat[0] == "pvar" and self.lit_only(e) and e[0] != "int":
+                return self.let_inferred(pat, e, env, rest, tail, fin, line)    # e.g. `let mut min = 1 << 48;`
             pre = []
             term, t = self.expr(e, env, pre, want)
             if want is not None:
@@ -874,21 +876,33 @@ class FnTranslator:
             return self.stmt_expr(e, rest, tail, env, fin)
         raise RsError("statement outside the subset: %s" % k)
 
+    def snap_state(self):
+        """copy of the mutable translation state (for trial translations that may fail)"""
+        import copy
+        st = {k: copy.copy(v) for k, v in self.__dict__.items()
+              if isinstance(v, (list, dict, set, int, str, tuple, bool, type(None)))}
+        return (st, copy.deepcopy(self.u.used_fields))
+
+    def restore_state(self, s):
+        import copy
+        for k, v in s[0].items():
+            setattr(self, k, copy.copy(v))
+        self.u.used_fields.clear(); self.u.used_fields.update(copy.deepcopy(s[1]))
+
+    def lit_only(self, e):
+        """an expression made of unsuffixed integer literals and arithmetic/shift operators only"""
+        if e[0] == "paren": return self.lit_only(e[1])
+        if e[0] == "int": return not e[2]
+        if e[0] == "binary" and e[1] in ("+", "-", "*", "<<", ">>", "&", "|", "^"): return self.lit_only(e[2]) and self.lit_only(e[3])
+        return False
+
     def let_inferred(self, pat, e, env, rest, tail, fin, line):
         """`let x = <expression made of untyped integer literals>;` without annotation: the type is the one rustc
         infers from the later uses of `x`.  The rest of the function is type-checked with `x : T` for every unsigned
         integer type T (operands of a binary operation / arguments must have equal types here as in Rust); the
         translation is accepted only if exactly ONE T type-checks (fail closed otherwise, e.g. when `x` is only
         cast, where rustc would default to i32)."""
-        import copy
-        def snap():
-            return (self.n, list(self.exts), list(self.dropped), list(self.needs_deq), dict(self.local_consts),
-                    list(self.callees), copy.deepcopy(self.u.used_fields), list(self.ext_opaques))
-        def restore(s):
-            self.n, self.exts, self.dropped, self.needs_deq, self.local_consts, self.callees = \
-                s[0], list(s[1]), list(s[2]), list(s[3]), dict(s[4]), list(s[5])
-            self.u.used_fields.clear(); self.u.used_fields.update(copy.deepcopy(s[6]))
-            self.ext_opaques = list(s[7])
+        snap, restore = self.snap_state, self.restore_state
         s0 = snap()
         good = []
         for cand in ("u64", "u32", "usize", "u16", "u8", "u128"):
@@ -1292,6 +1306,33 @@ class FnTranslator:
         return env
 
     def for_stmt(self, e, env, cont, ctx=None):
+        """`for x in <lit>..<lit>` (both bounds unsuffixed literals): the type of `x` is the one rustc infers from its
+        uses; the loop (and what follows it) is type-checked with every unsigned type, exactly one must fit."""
+        it = e[2]
+        while it[0] == "paren": it = it[1]
+        if it[0] == "range" and it[1] is not None and it[2] is not None and it[1][0] == "int" and not it[1][2] \
+                and it[2][0] == "int" and not it[2][2] and getattr(self, "_range_force", None) is None:
+            s0 = self.snap_state()
+            good = []
+            for cand in ("u64", "u32", "usize", "u16", "u8", "u128"):
+                self._range_force = (id(it), ("int", cand))
+                try:
+                    ir = self.for_stmt_inner(e, env, cont, ctx)
+                    self._range_force = None
+                    good.append((cand, ir, self.snap_state()))
+                except RsError:
+                    pass
+                self._range_force = None
+                self.restore_state(s0)
+                self._range_force = None
+            if len(good) != 1:
+                raise RsError("range over untyped literals: %d unsigned types fit the uses of the loop variable" % len(good))
+            self.restore_state(good[0][2])
+            self._range_force = None
+            return good[0][1]
+        return self.for_stmt_inner(e, env, cont, ctx)
+
+    def for_stmt_inner(self, e, env, cont, ctx=None):
         _, pat, it, body = e
         ctx = ctx or {}
         if self.has_try(body) and not self.is_result:
@@ -1422,6 +1463,12 @@ class FnTranslator:
         """(Lean list term, element type) of an iterable expression"""
         if it[0] == "paren": return self.iter_expr(it[1], env, pre)
         if it[0] == "range":
+            rf = getattr(self, "_range_force", None)
+            if rf is not None and rf[0] == id(it):
+                a, _ = self.expr(it[1], env, pre, rf[1])
+                b, _ = self.expr(it[2], env, pre, rf[1])
+                if it[3]: raise RsError("inclusive range is outside the subset")
+                return "(Rs.range %s %s)" % (a, b), rf[1]
             a, at = self.expr(it[1], env, pre, None) if it[1][0] != "int" else (None, INTLIT)
             b, bt = self.expr(it[2], env, pre, None if at == INTLIT else at)
             if it[1][0] == "int":
